@@ -376,7 +376,7 @@ def f_axioms(prog, reg, repo, tier="quick"):
     badr = [x for x in r["results"] if not x["ok"]]
     return [ob(f"axioms::cpython-readings[{len(r['results'])} readings of str/re/io/deque axioms agree with CPython {r['python']} (bound {r['bound']})]",
                r["ok"], "; ".join(f"{x['name']}: {x.get('detail')}" for x in badr[:3]) or None,
-               size=sum(x["cases"] for x in r["results"]), checker_error=True, bounded=True)]
+               size=len(r["results"]), checker_error=True, bounded=True)]
 
 
 f_axioms.takes_tier = True
